@@ -543,4 +543,251 @@ Proof.
   destruct (o_lu orc nt (v_Btmp (bB_closed s0))) as [Y|]; [|reflexivity].
   unfold BB4. rewrite BB4_sweep. norm_state. reflexivity.
 Qed.
+
+(* ================= likelihood_worker ================= *)
+Definition tchi (n m : nat) (s : st) : F := fmul fo (fmul fo (fsub fo (v_b s m) (v_rv s m)) (v_Binv s n m)) (fsub fo (v_b s n) (v_rv s n)).
+Definition ta (n : nat) (s : st) (i : nat) : F := fmul fo (fmul fo (v_M_T s i n) (v_s_ivar s n)) (v_rv s n).
+Definition LW_chi_m (n : nat) (s : st) : st := for_range nt (fun m s => set_l_chi2 (fadd fo (l_chi2 s) (tchi n m s)) s) s.
+Definition LW_chi (s : st) : st := for_range nt LW_chi_m s.
+Definition LW_a0 (s : st) : st := for_range nl (fun i s => set_v_a (upd1 (v_a s) i (fz fo 0)) s) s.
+Definition LW_a1_i (n : nat) (s : st) : st := for_range nl (fun i s => set_v_a (upd1 (v_a s) i (fadd fo (v_a s i) (ta n s i))) s) s.
+Definition LW_a1 (s : st) : st := for_range nt LW_a1_i s.
+Definition LW_a2 (s : st) : st := for_range nl (fun i s => set_v_a (upd1 (v_a s) i (fadd fo (v_a s i) (fdiv fo (v_mu s i) (v_Lambda s i)))) s) s.
+Definition LW_cp_j (i : nat) (s : st) : st := for_range nl (fun j s => set_v_Atmp (upd2 (v_Atmp s) i j (v_Ainv s i j)) s) s.
+Definition LW_cp (s : st) : st := for_range nl LW_cp_j s.
+Definition LW_result (s : st) : F := fmul fo (fopp fo (fdiv fo (fz fo 1) (fz fo 2))) (fadd fo (l_chi2 s) (l_log_det_val s)).
+
+Definition likelihood_worker_mirror (mk : Z) (s : st) : st * F :=
+  let s := set_l_lwork NT (set_l_info 0%Z (set_l_nrhs 1%Z s)) in
+  let s := (let '(s1, r) := make_AAinv fo orc NT NL s in set_l_info r s1) in
+  if (l_info s <? 0)%Z then (s, finf fo)
+  else
+    let s := (let '(s1, r) := make_bBBinv fo orc NT NL s in set_l_log_det_val r s1) in
+    let s := LW_chi (set_l_chi2 (fz fo 0) s) in
+    if (mk =? 1)%Z then
+      let s := LW_cp (LW_a2 (LW_a1 (LW_a0 s))) in
+      match o_solve orc nl (v_Atmp s) (v_a s) with
+      | None => (s, finf fo)
+      | Some x => let s := set_v_a x s in (s, LW_result s)
+      end
+    else (s, LW_result s).
+Lemma worker_mirror mk s : likelihood_worker fo orc NT NL mk s = likelihood_worker_mirror mk s.
+Proof. unfold likelihood_worker, likelihood_worker_mirror. rewrite !Nat2Z.id. reflexivity. Qed.
+
+(* chi^2: sum over n of sum over m, in loop order *)
+Definition chi2_val (s : st) : F := for_range nt (fun n acc => fold_from (fadd fo) acc nt (fun m => tchi n m s)) (fz fo 0).
+Lemma LW_chi_m_char n s : LW_chi_m n s = set_l_chi2 (fold_from (fadd fo) (l_chi2 s) nt (fun m => tchi n m s)) s.
+Proof.
+  unfold LW_chi_m. assert (H : forall K, for_range K (fun m s => set_l_chi2 (fadd fo (l_chi2 s) (tchi n m s)) s) s
+                                     = set_l_chi2 (fold_from (fadd fo) (l_chi2 s) K (fun m => tchi n m s)) s).
+  { induction K as [|K IH]; cbn [for_range].
+    - unfold fold_from. cbn [for_range]. destruct s; reflexivity.
+    - rewrite IH. norm_state. rewrite fold_from_S. reframe (tchi n K) s. reflexivity. }
+  apply H.
+Qed.
+Lemma LW_chi_char s : LW_chi (set_l_chi2 (fz fo 0) s) = set_l_chi2 (chi2_val s) s.
+Proof.
+  unfold LW_chi, chi2_val.
+  assert (H : forall K, for_range K LW_chi_m (set_l_chi2 (fz fo 0) s)
+                        = set_l_chi2 (for_range K (fun n acc => fold_from (fadd fo) acc nt (fun m => tchi n m s)) (fz fo 0)) s).
+  { induction K as [|K IH]; cbn [for_range]; [reflexivity|].
+    rewrite IH, LW_chi_m_char. norm_state. reflexivity. }
+  apply H.
+Qed.
+
+(* right-hand side of the posterior-mean system: a[i] = sum_n M_T[i,n] w[n] y[n] + mu[i]/Lambda[i] *)
+Definition a_rhs (s : st) (i : nat) : F := fadd fo (fold_from (fadd fo) (fz fo 0) nt (fun n => ta n s i)) (fdiv fo (v_mu s i) (v_Lambda s i)).
+Lemma vec_assign1 (L : lens1) K (v : nat -> st -> F) s0 :
+  (forall i x s, v i (ls1 L x s) = v i s) ->
+  for_range K (fun i s => ls1 L (upd1 (lg1 L s) i (v i s)) s) s0 = ls1 L (fun a => if Nat.ltb a K then v a s0 else lg1 L s0 a) s0.
+Proof.
+  intros Hv. induction K as [|K IH]; cbn [for_range].
+  - replace (fun a => if Nat.ltb a 0 then v a s0 else lg1 L s0 a) with (lg1 L s0) by (extensionality a; reflexivity). rewrite lsg1. reflexivity.
+  - rewrite IH, lgs1, lss1, Hv. rewrite (upd1_fill (lg1 L s0) K (fun a => v a s0)). reflexivity.
+Qed.
+(* every cell i < K updated from its own old value *)
+Lemma vec_update1 (L : lens1) K (h : nat -> F -> st -> F) s0 :
+  (forall i x y s, h i x (ls1 L y s) = h i x s) ->
+  for_range K (fun i s => ls1 L (upd1 (lg1 L s) i (h i (lg1 L s i) s)) s) s0
+  = ls1 L (fun a => if Nat.ltb a K then h a (lg1 L s0 a) s0 else lg1 L s0 a) s0.
+Proof.
+  intros Hh. induction K as [|K IH]; cbn [for_range].
+  - replace (fun a => if Nat.ltb a 0 then h a (lg1 L s0 a) s0 else lg1 L s0 a) with (lg1 L s0) by (extensionality a; reflexivity). rewrite lsg1. reflexivity.
+  - rewrite IH, lgs1, lss1, Hh. rewrite Nat.ltb_irrefl. rewrite (upd1_fill (lg1 L s0) K (fun a => h a (lg1 L s0 a) s0)). reflexivity.
+Qed.
+Lemma LW_a0_char s : LW_a0 s = set_v_a (fun a => if Nat.ltb a nl then fz fo 0 else v_a s a) s.
+Proof. unfold LW_a0. apply (vec_assign1 L_a nl (fun _ _ => fz fo 0)). reflexivity. Qed.
+Lemma LW_a1_i_char n s : LW_a1_i n s = set_v_a (fun a => if Nat.ltb a nl then fadd fo (v_a s a) (ta n s a) else v_a s a) s.
+Proof. unfold LW_a1_i. apply (vec_update1 L_a nl (fun i x s => fadd fo x (ta n s i))). reflexivity. Qed.
+Lemma LW_a1_char s : LW_a1 s = set_v_a (fun a => if Nat.ltb a nl then fold_from (fadd fo) (v_a s a) nt (fun n => ta n s a) else v_a s a) s.
+Proof.
+  unfold LW_a1.
+  assert (H : forall K, for_range K LW_a1_i s = set_v_a (fun a => if Nat.ltb a nl then fold_from (fadd fo) (v_a s a) K (fun n => ta n s a) else v_a s a) s).
+  { induction K as [|K IH]; cbn [for_range].
+    - replace (fun a => if Nat.ltb a nl then fold_from (fadd fo) (v_a s a) 0 (fun n => ta n s a) else v_a s a) with (v_a s)
+        by (extensionality a; destruct (Nat.ltb a nl); reflexivity). destruct s; reflexivity.
+    - rewrite IH, LW_a1_i_char. norm_state. f_equal. extensionality a. destruct (Nat.ltb a nl); [|reflexivity].
+      rewrite fold_from_S. reframe (ta K) s. reflexivity. }
+  apply H.
+Qed.
+Lemma LW_a2_char s : LW_a2 s = set_v_a (fun a => if Nat.ltb a nl then fadd fo (v_a s a) (fdiv fo (v_mu s a) (v_Lambda s a)) else v_a s a) s.
+Proof. unfold LW_a2. apply (vec_update1 L_a nl (fun i x s => fadd fo x (fdiv fo (v_mu s i) (v_Lambda s i)))). reflexivity. Qed.
+Lemma LW_cp_char s : LW_cp s = set_v_Atmp (fun a b => if Nat.ltb a nl && Nat.ltb b nl then v_Ainv s a b else v_Atmp s a b) s.
+Proof.
+  unfold LW_cp. apply (rows_assign2 L_Atmp nl nl LW_cp_j (fun a b s => v_Ainv s a b)); [|reflexivity].
+  intros i s1. unfold LW_cp_j. rewrite (row_assign2 L_Atmp i nl (fun b s => v_Ainv s i b)) by reflexivity. cbn [ls lg L_Atmp]. f_equal.
+  extensionality a. extensionality b. destruct (Nat.eqb_spec a i) as [Ha|Ha]; [subst a|]; reflexivity.
+Qed.
+Lemma LW_a_block_char s :
+  LW_cp (LW_a2 (LW_a1 (LW_a0 s)))
+  = set_v_Atmp (fun a b => if Nat.ltb a nl && Nat.ltb b nl then v_Ainv s a b else v_Atmp s a b)
+      (set_v_a (fun a => if Nat.ltb a nl then a_rhs s a else v_a s a) s).
+Proof.
+  rewrite LW_a0_char, LW_a1_char, LW_a2_char, LW_cp_char. norm_state. f_equal. f_equal.
+  extensionality a. destruct (Nat.ltb a nl) eqn:E; [|reflexivity]. unfold a_rhs. reframe (ta) s. reflexivity.
+Qed.
+
+(* ================= the worker as a function of the configuration arrays ================= *)
+(* pure closed forms over the arrays the worker only reads: M_T (design matrix, transposed), w (jittered inverse variances),
+   mu / La (prior means / variances), y (velocities) *)
+Section Pure.
+Variables (MT : arr2 F) (w mu La y : arr1 F).
+Definition pAinv (i j : nat) : F :=
+  sum_from (if Nat.eqb i j then fdiv fo (fz fo 1) (La i) else fz fo 0) nt (fun n => fmul fo (fmul fo (MT j n) (w n)) (MT i n)).
+Definition pb (n : nat) : F := sum_from (fz fo 0) nl (fun i => fmul fo (MT i n) (mu i)).
+Definition pB (n m : nat) : F :=
+  sum_from (if Nat.eqb n m then fdiv fo (fz fo 1) (w n) else fz fo 0) nl (fun i => fmul fo (fmul fo (MT i n) (La i)) (MT i m)).
+Definition pBinv (A : arr2 F) (n m : nat) : F :=
+  for_range nl (fun i acc => dif_from acc nl (fun j => fmul fo (fmul fo (fmul fo (fmul fo (w n) (MT i n)) (A i j)) (MT j m)) (w m)))
+            (if Nat.eqb n m then w n else fz fo 0).
+Definition pchi2 (A : arr2 F) : F :=
+  for_range nt (fun n acc => fold_from (fadd fo) acc nt
+     (fun m => fmul fo (fmul fo (fsub fo (pb m) (y m)) (pBinv A n m)) (fsub fo (pb n) (y n)))) (fz fo 0).
+Definition pa_rhs (i : nat) : F :=
+  fadd fo (fold_from (fadd fo) (fz fo 0) nt (fun n => fmul fo (fmul fo (MT i n) (w n)) (y n))) (fdiv fo (mu i) (La i)).
+Definition pvalue (A U : arr2 F) : F := fmul fo (fopp fo (fdiv fo (fz fo 1) (fz fo 2))) (fadd fo (pchi2 A) (logdet_val U)).
+End Pure.
+
+Definition in2 (K W : nat) (a b : nat) : bool := Nat.ltb a K && Nat.ltb b W.
+
+Section Worker.
+Variable s0 : st.
+Let MT := v_M_T s0. Let w := v_s_ivar s0. Let mu := v_mu s0. Let La := v_Lambda s0. Let y := v_rv s0.
+(* what the two factorisation oracles are called on *)
+Definition Atmp_arg : arr2 F := fun a b => if in2 nl nl a b then pAinv MT w La a b else v_Atmp s0 a b.
+Definition Btmp_arg : arr2 F := fun a b => if in2 nt nt a b then pB MT w La a b else v_Btmp s0 a b.
+
+Lemma Ainv_val_pure s i j : v_M_T s = MT -> v_s_ivar s = w -> v_Lambda s = La -> Ainv_val s i j = pAinv MT w La i j.
+Proof. intros H1 H2 H3. unfold Ainv_val, pAinv, tA. rewrite H1, H2, H3. reflexivity. Qed.
+Lemma b_val_pure s n : v_M_T s = MT -> v_mu s = mu -> b_val s n = pb MT mu n.
+Proof. intros H1 H2. unfold b_val, pb, tb. rewrite H1, H2. reflexivity. Qed.
+Lemma B_val_pure s n m : v_M_T s = MT -> v_s_ivar s = w -> v_Lambda s = La -> B_val s n m = pB MT w La n m.
+Proof. intros H1 H2 H3. unfold B_val, pB, tB. rewrite H1, H2, H3. reflexivity. Qed.
+Lemma Binv_val_pure s (A : arr2 F) n m :
+  v_M_T s = MT -> v_s_ivar s = w -> (forall i j, (i < nl)%nat -> (j < nl)%nat -> v_A s i j = A i j) -> Binv_val s n m = pBinv MT w A n m.
+Proof.
+  intros H1 H2 H3. unfold Binv_val, pBinv. rewrite H2. apply for_range_ext. intros i acc Hi. apply fold_from_ext. intros j Hj.
+  unfold tBi. rewrite H1, H2, H3 by assumption. reflexivity.
+Qed.
+
+(* state after make_AAinv succeeded with Y, and after make_bBBinv succeeded with U *)
+Definition sA_ok (Y : arr2 F) : st :=
+  set_l_info 0%Z (set_v_A (fun a b => if in2 nl nl a b then Y a b else v_A s0 a b)
+     (set_v_Atmp Y (AA_closed (set_l_lwork NT (set_l_info 0%Z (set_l_nrhs 1%Z s0))) nl))).
+Definition sB_ok (Y U : arr2 F) : st :=
+  set_l_log_det_val (logdet_val U) (set_l_log_det_val (logdet_val U) (set_v_Btmp U (bB_closed (sA_ok Y)))).
+
+Lemma worker_after_factorisations mk (Y U : arr2 F) :
+  o_inv orc nl Atmp_arg = Some Y -> o_lu orc nt Btmp_arg = Some U ->
+  likelihood_worker fo orc NT NL mk s0 =
+  let s := set_l_chi2 (chi2_val (sB_ok Y U)) (sB_ok Y U) in
+  if (mk =? 1)%Z then
+    let s := LW_cp (LW_a2 (LW_a1 (LW_a0 s))) in
+    match o_solve orc nl (v_Atmp s) (v_a s) with
+    | None => (s, finf fo)
+    | Some x => let s := set_v_a x s in (s, LW_result s)
+    end
+  else (s, LW_result s).
+Proof.
+  intros HY HU. rewrite worker_mirror. unfold likelihood_worker_mirror. cbv zeta.
+  rewrite make_AAinv_char. cbv zeta.
+  assert (EA : v_Atmp (AA_closed (set_l_lwork NT (set_l_info 0%Z (set_l_nrhs 1%Z s0))) nl) = Atmp_arg).
+  { unfold AA_closed, Atmp_arg, in2. norm_state. extensionality a. extensionality b.
+    destruct (Nat.ltb a nl && Nat.ltb b nl); [|reflexivity]. apply Ainv_val_pure; reflexivity. }
+  rewrite EA, HY.
+  change (set_l_info 0%Z (set_v_A (fun a b => if Nat.ltb a nl && Nat.ltb b nl then Y a b else v_A (set_l_lwork NT (set_l_info 0%Z (set_l_nrhs 1%Z s0))) a b)
+            (set_v_Atmp Y (AA_closed (set_l_lwork NT (set_l_info 0%Z (set_l_nrhs 1%Z s0))) nl)))) with (sA_ok Y).
+  change (l_info (sA_ok Y) <? 0)%Z with false. cbv iota.
+  rewrite make_bBBinv_char. cbv zeta.
+  assert (EB : v_Btmp (bB_closed (sA_ok Y)) = Btmp_arg).
+  { unfold bB_closed, Btmp_arg, in2. norm_state. extensionality a. extensionality b.
+    destruct (Nat.ltb a nt && Nat.ltb b nt); [|reflexivity]. apply B_val_pure; reflexivity. }
+  rewrite EB, HU.
+  change (set_l_log_det_val (logdet_val U) (set_l_log_det_val (logdet_val U) (set_v_Btmp U (bB_closed (sA_ok Y))))) with (sB_ok Y U).
+  rewrite LW_chi_char. reflexivity.
+Qed.
+
+(* the value the worker computes: for every size and every initial state, if the inversion of Ainv returns Y and the LU of B
+   returns U, chi^2 and the returned value are the closed forms over the configuration arrays alone *)
+Lemma chi2_pure (Y U : arr2 F) : chi2_val (sB_ok Y U) = pchi2 MT w mu y Y.
+Proof.
+  unfold chi2_val, pchi2. apply for_range_ext. intros n acc Hn. apply fold_from_ext. intros m Hm. unfold tchi.
+  assert (Hb : forall k, (k < nt)%nat -> v_b (sB_ok Y U) k = pb MT mu k).
+  { intros k Hk. unfold sB_ok, bB_closed. norm_state. replace (k <? nt)%nat with true by (symmetry; apply Nat.ltb_lt; lia).
+    apply b_val_pure; reflexivity. }
+  assert (HBi : v_Binv (sB_ok Y U) n m = pBinv MT w Y n m).
+  { unfold sB_ok, bB_closed. norm_state.
+    replace (n <? nt)%nat with true by (symmetry; apply Nat.ltb_lt; lia).
+    replace (m <? nt)%nat with true by (symmetry; apply Nat.ltb_lt; lia). cbn [andb].
+    apply Binv_val_pure; [reflexivity|reflexivity|]. intros i j Hi Hj. unfold sA_ok, in2. norm_state.
+    replace (i <? nl)%nat with true by (symmetry; apply Nat.ltb_lt; lia).
+    replace (j <? nl)%nat with true by (symmetry; apply Nat.ltb_lt; lia). reflexivity. }
+  rewrite !Hb by assumption. rewrite HBi. reflexivity.
+Qed.
+
+Theorem worker_value_marginal (Y U : arr2 F) :
+  o_inv orc nl Atmp_arg = Some Y -> o_lu orc nt Btmp_arg = Some U ->
+  snd (likelihood_worker fo orc NT NL 0%Z s0) = pvalue MT w mu y Y U.
+Proof.
+  intros HY HU. rewrite (worker_after_factorisations 0%Z Y U HY HU). cbv zeta. cbn [Z.eqb Pos.eqb snd].
+  unfold LW_result, pvalue. norm_state. rewrite chi2_pure. unfold sB_ok. norm_state. reflexivity.
+Qed.
+
+(* posterior path (make_aAinv = 1): same value; the system handed to the solver is (Ainv, right-hand side) of the closed forms,
+   and `a` holds what the solver returns *)
+Theorem worker_posterior (Y U : arr2 F) (x : arr1 F) :
+  o_inv orc nl Atmp_arg = Some Y -> o_lu orc nt Btmp_arg = Some U ->
+  o_solve orc nl (fun a b => if in2 nl nl a b then pAinv MT w La a b else Y a b)
+              (fun a => if Nat.ltb a nl then pa_rhs MT w mu La y a else v_a s0 a) = Some x ->
+  snd (likelihood_worker fo orc NT NL 1%Z s0) = pvalue MT w mu y Y U /\
+  v_a (fst (likelihood_worker fo orc NT NL 1%Z s0)) = x /\
+  (forall i j, (i < nl)%nat -> (j < nl)%nat -> v_Ainv (fst (likelihood_worker fo orc NT NL 1%Z s0)) i j = pAinv MT w La i j).
+Proof.
+  intros HY HU Hx. rewrite (worker_after_factorisations 1%Z Y U HY HU). cbv zeta. cbn [Z.eqb Pos.eqb].
+  rewrite LW_a_block_char.
+  set (sC := set_l_chi2 (chi2_val (sB_ok Y U)) (sB_ok Y U)).
+  assert (PAinv : v_Ainv sC = (fun a b => if Nat.ltb a nl && Nat.ltb b nl then Ainv_val (set_l_lwork NT (set_l_info 0%Z (set_l_nrhs 1%Z s0))) a b
+                                           else if Nat.ltb a nl && Nat.ltb b nl then fz fo 0 else v_Ainv s0 a b)) by reflexivity.
+  assert (PAtmp : v_Atmp sC = Y) by reflexivity.
+  assert (Pa : v_a sC = v_a s0) by reflexivity.
+  assert (Prhs : forall a, a_rhs sC a = pa_rhs MT w mu La y a) by (intros a; reflexivity).
+  assert (E1 : v_Atmp (set_v_Atmp (fun a b => if Nat.ltb a nl && Nat.ltb b nl then v_Ainv sC a b else v_Atmp sC a b)
+                 (set_v_a (fun a => if Nat.ltb a nl then a_rhs sC a else v_a sC a) sC))
+               = (fun a b => if in2 nl nl a b then pAinv MT w La a b else Y a b)).
+  { rewrite gs_v_Atmp__v_Atmp, PAinv, PAtmp. extensionality a. extensionality b. unfold in2.
+    destruct (Nat.ltb a nl && Nat.ltb b nl) eqn:E; [|reflexivity]. apply Ainv_val_pure; reflexivity. }
+  assert (E2 : v_a (set_v_Atmp (fun a b => if Nat.ltb a nl && Nat.ltb b nl then v_Ainv sC a b else v_Atmp sC a b)
+                 (set_v_a (fun a => if Nat.ltb a nl then a_rhs sC a else v_a sC a) sC))
+               = (fun a => if Nat.ltb a nl then pa_rhs MT w mu La y a else v_a s0 a)).
+  { rewrite gs_v_a__v_Atmp, gs_v_a__v_a, Pa. extensionality a. destruct (Nat.ltb a nl); [apply Prhs|reflexivity]. }
+  rewrite E1, E2, Hx. cbn [fst snd]. split; [|split].
+  - unfold LW_result, pvalue.
+    repeat first [rewrite gs_l_chi2__v_a | rewrite gs_l_chi2__v_Atmp | rewrite gs_l_log_det_val__v_a | rewrite gs_l_log_det_val__v_Atmp].
+    change (l_chi2 sC) with (chi2_val (sB_ok Y U)). change (l_log_det_val sC) with (logdet_val U). rewrite chi2_pure. reflexivity.
+  - rewrite gs_v_a__v_a. reflexivity.
+  - intros i j Hi Hj. repeat first [rewrite gs_v_Ainv__v_a | rewrite gs_v_Ainv__v_Atmp]. rewrite PAinv.
+    replace (i <? nl)%nat with true by (symmetry; apply Nat.ltb_lt; lia).
+    replace (j <? nl)%nat with true by (symmetry; apply Nat.ltb_lt; lia). cbn [andb]. apply Ainv_val_pure; reflexivity.
+Qed.
+End Worker.
 End Loops.
